@@ -261,7 +261,7 @@ def main():
     lines.append("* C15 parent-guard-dropped: treating the tree edge back to the parent as a back edge cannot lower low[child] below disc[parent], and blocks are node sets, so vertex-biconnectivity results are unchanged.")
     lines.append("* C07 csv-colour-swapped: scaffold nodes become 'gray' and bubble nodes 'orange' - still one label per role; the statement asks for the role, not for particular colour names (the documentation's figure even uses yellow), so the oracle only requires a consistent two-valued role column.")
     lines.append("* C11 cli-cores-capped-at-one: with one core the output is by definition the single-core output; C11 does not claim that several cores are actually used.")
-    lines.append("* C20 last-tsv-row-wins: repeated TSV rows are identical in the generated domain (conflicting duplicates are undefined by the statement).")
+    lines.append("* C20 last-tsv-row-wins: conflicting listings of one read are generated, but the statement does not say which listing counts: the oracle accepts the values of any one listing.")
     if not want:
         open(os.path.join(ROOT, "MUTATION_AUDIT.md"), "w").write("\n".join(lines) + "\n")
     print("\n".join(l for l in lines if l.startswith("| C") or "mutants," in l))
